@@ -72,7 +72,7 @@ CaretInScreen(s) == s.x >= 0 /\ s.x <= s.tw - 1 /\ s.y >= First(s) /\ s.y <= Fir
 DefTabs(w) == [i \in 1..((w + 7) \div 8) |-> (i - 1) * 8]
 
 \* ------------------------------------------------------------------ rows and cells (layer.rs, line.rs)
-Repeat(v, n) == [i \in 1..Max(n, 0) |-> v]
+Repeat(v, n) == [i \in 1..Max(n, 0) |-> v] \o <<>>          \* \o <<>> forces TLC to materialise the lazy function as a tuple
 RowAt(s, y) == IF y >= 0 /\ y < NL(s) THEN s.rows[y + 1] ELSE <<>>
 RowExists(s, y) == y >= 0 /\ y < NL(s)
 \* Layer::get_char
@@ -89,13 +89,13 @@ WriteRow(s, y, lo0, hi0, F(_)) ==
   IF y < 0 \/ y >= s.lh \/ lo > hi THEN s
   ELSE LET r1 == IF y >= NL(s) THEN s.rows \o Repeat(Repeat(InvCell, s.lw), y + 1 - NL(s)) ELSE s.rows
            old == r1[y + 1]
-           new == [i \in 1..Max(Len(old), hi + 1) |-> IF i - 1 >= lo /\ i - 1 <= hi THEN F(i - 1) ELSE IF i <= Len(old) THEN old[i] ELSE InvCell]
+           new == [i \in 1..Max(Len(old), hi + 1) |-> IF i - 1 >= lo /\ i - 1 <= hi THEN F(i - 1) ELSE IF i <= Len(old) THEN old[i] ELSE InvCell] \o <<>>
        IN [s EXCEPT !.rows = [r1 EXCEPT ![y + 1] = new]]
 SetCell(s, x, y, cell) == WriteRow(s, y, x, x, LAMBDA q : cell)
 RemoveAt(seq, i) == SubSeq(seq, 1, i - 1) \o SubSeq(seq, i + 1, Len(seq))        \* 1-based
 InsertAt(seq, i, v) == SubSeq(seq, 1, i - 1) \o <<v>> \o SubSeq(seq, i, Len(seq)) \* v becomes element i
 \* Line::set_char on an existing row (no layer bounds)
-LineSet(row, x, cell) == [i \in 1..Max(Len(row), x + 1) |-> IF i = x + 1 THEN cell ELSE IF i <= Len(row) THEN row[i] ELSE InvCell]
+LineSet(row, x, cell) == [i \in 1..Max(Len(row), x + 1) |-> IF i = x + 1 THEN cell ELSE IF i <= Len(row) THEN row[i] ELSE InvCell] \o <<>>
 \* Line::insert_char
 LineInsert(row, x, cell) == LET p == IF x > Len(row) THEN row \o Repeat(InvCell, x - Len(row)) ELSE row IN InsertAt(p, x + 1, cell)
 
@@ -121,14 +121,14 @@ ScrollLeft(s) ==
   [s EXCEPT !.rows = [i \in 1..NL(s) |->
       LET row == s.rows[i] IN
       IF i - 1 >= a /\ i - 1 <= b /\ c0 >= 0 /\ Len(row) > c0
-      THEN RemoveAt(InsertAt(row, Min(Max(c1, 0), Len(row)) + 1, Blank), c0 + 1) ELSE row]]
+      THEN RemoveAt(InsertAt(row, Min(Max(c1, 0), Len(row)) + 1, Blank), c0 + 1) ELSE row] \o <<>>]
 ScrollRight(s) ==
   LET a == FirstEdit(s)  b == Min(LastEdit(s), NL(s) - 1)  c0 == FirstCol(s)  c1 == LastCol(s) IN
   [s EXCEPT !.rows = [i \in 1..NL(s) |->
       LET row == s.rows[i] IN
       IF i - 1 >= a /\ i - 1 <= b /\ c0 >= 0 /\ Len(row) > c0
       THEN LET r1 == InsertAt(row, c0 + 1, Blank) IN IF c1 + 1 >= 0 /\ c1 + 1 < Len(r1) THEN RemoveAt(r1, c1 + 2) ELSE r1
-      ELSE row]]
+      ELSE row] \o <<>>]
 
 \* Layer::insert_line(index, empty row): pads with full-width invisible rows (!)
 LayerInsertLine(s, idx) ==
@@ -181,7 +181,7 @@ Erase(s, n0) ==
   LET n == Min(s.tw - s.x, n0) IN
   IF n <= 0 \/ ~RowExists(s, s.y) THEN s
   ELSE LET old == RowAt(s, s.y)
-           new == [i \in 1..Max(Len(old), s.x + n) |-> IF i - 1 >= s.x /\ i - 1 < s.x + n THEN Cell(32, s.ca) ELSE IF i <= Len(old) THEN old[i] ELSE InvCell]
+           new == [i \in 1..Max(Len(old), s.x + n) |-> IF i - 1 >= s.x /\ i - 1 < s.x + n THEN Cell(32, s.ca) ELSE IF i <= Len(old) THEN old[i] ELSE InvCell] \o <<>>
        IN [s EXCEPT !.rows[s.y + 1] = new]
 
 \* Buffer::print_char
